@@ -85,9 +85,12 @@ impl Write for CountSink {
 pub struct FileSink {
     pub f: std::fs::File,
     pub n: u64,
+    /// when not 0: at most that many bytes are taken per call (a pipe, a socket, a C callback: legal short writes)
+    pub max: usize,
 }
 impl Write for FileSink {
     fn write(&mut self, b: &[u8]) -> io::Result<usize> {
+        let b = if self.max > 0 { &b[..b.len().min(self.max)] } else { b };
         let k = self.f.write(b)?;
         self.n += k as u64;
         Ok(k)
@@ -214,7 +217,8 @@ fn run_case(rep: &mut Report, dir: &std::path::Path, layers: u8, files: &[(Strin
     // (a) write
     let f = std::fs::File::create(&path).expect("create scratch archive");
     let by_calls = label == "calls";
-    let (res, wpeak, wbig) = measured(|| if by_calls { write_archive_calls(FileSink { f, n: 0 }, &cfg, files, seed, mode, piece_for(layers)) } else { write_archive(FileSink { f, n: 0 }, &cfg, files, seed, mode) });
+    let max = if label == "stream-short" { 2048 } else { 0 };
+    let (res, wpeak, wbig) = measured(|| if by_calls { write_archive_calls(FileSink { f, n: 0, max }, &cfg, files, seed, mode, piece_for(layers)) } else { write_archive(FileSink { f, n: 0, max }, &cfg, files, seed, mode) });
     // the side files of the by-calls shape hold 3 bytes per interleaved append
     let side: u64 = if by_calls { files.iter().map(|f| if f.1.div_ceil(piece_for(layers)) >= 8 { 12 } else { 0 }).sum() } else { 0 };
     let sink = match res {
@@ -319,7 +323,7 @@ pub fn run(ctx: &Ctx) -> Report {
         let total = r["total"].as_u64().unwrap_or(MIB);
         let n = r["files"].as_u64().unwrap_or(1).max(1);
         let files: Vec<(String, u64)> = if r["kind"] == "many-files" { many_files(n.saturating_sub(1)) } else { (0..n).map(|i| (format!("f{i:06}"), total / n)).collect() };
-        let label = if r["kind"] == "calls" { "calls" } else { "replay" };
+        let label = if r["kind"] == "calls" { "calls" } else if r["kind"] == "stream-short" { "stream-short" } else { "replay" };
         let p_large = run_case(&mut rep, dir.path(), layers, &files, r["seed"].as_u64().unwrap_or(seed), r["mode"].as_u64().unwrap_or(2) as u8, label);
         if let Some(p) = &p_large {
             check_ceiling(&mut rep, "replay", layers, files.len(), total, p, files.len() * PER_FILE);
@@ -366,6 +370,29 @@ pub fn run(ctx: &Ctx) -> Report {
                 rep.measurements.insert(format!("growth:layers={}", cfg_for(layers).layers_name()),
                     json!({"mib": [m0, m1], "write": [p0.write, p1.write], "repair": [p0.repair, p1.repair], "linear": [p0.linear, p1.linear]}));
             }
+        }
+    }
+    // a destination that takes at most 2048 bytes per call (legal short writes): what a layer keeps for a slow
+    // destination must not grow with the data
+    for layers in [L_ENC, L_COMP, L_ENC | L_COMP, 0u8] {
+        let (m0, m1) = (8u64, if ctx.thorough { 128u64 } else { 48 });
+        let mut pk: Vec<Peaks> = vec![];
+        for mib in [m0, m1] {
+            let total = mib * MIB + 33;
+            let files = vec![("big/file.bin".to_string(), total)];
+            if let Some(p) = run_case(&mut rep, dir.path(), layers, &files, seed, 2, "stream-short") {
+                check_ceiling(&mut rep, "stream-short", layers, 1, total, &p, 0);
+                pk.push(p);
+            }
+        }
+        if pk.len() == 2 {
+            let (a, b) = (pk[0].write, pk[1].write);
+            if b > a + TOLERANCE {
+                rep.violation("oracle", "C15/independent-of-size", json!({"stage": "write", "layers": layers, "check": "growth-short-writes"}),
+                    &format!("peak live heap during write grows with the data when the destination takes at most 2048 bytes per call: {a} bytes at {m0} MiB, {b} bytes at {m1} MiB (tolerance {TOLERANCE})"),
+                    json!({"kind":"stream-short","layers":layers,"files":1,"total": m1 * MIB + 33,"op":"write","peak_small":a,"peak_large":b,"mib_small":m0,"mib_large":m1}));
+            }
+            rep.measurements.insert(format!("growth-short-writes:layers={}", cfg_for(layers).layers_name()), json!({"mib": [m0, m1], "write": [a, b]}));
         }
     }
     // the same bytes pushed by many small appends, each followed by a flush (one contiguous run however many
